@@ -30,6 +30,26 @@ def apply_patch(dst, patch):
     return rc == 0, out
 
 
+OLD_BASE = '3bf2588'      # the commit the stored patches of waves 1-7 were written against
+OLD_BASE_SKIP = 'REG-RECORD'   # 08c3146 repaired exec_binary's two-lookup read after that; REG-RECORD reports it on the old base
+
+
+def tree_with(patch):
+    """(tmp dir, tree, extra env, ok): /repo's working tree with the patch applied; if the patch no longer applies there
+    (it rewrites code a later fix: commit touched), the commit it was written against with the patch applied"""
+    d, dst = scratch()
+    okp, pout = apply_patch(dst, patch)
+    if okp:
+        return d, dst, {}, True
+    shutil.rmtree(dst, ignore_errors=True)
+    os.makedirs(dst)
+    p1 = subprocess.Popen(['git', '-C', REPO, 'archive', OLD_BASE], stdout=subprocess.PIPE)
+    subprocess.run(['tar', '-x', '-C', dst], stdin=p1.stdout)
+    p1.wait()
+    okp, pout = apply_patch(dst, patch)
+    return d, dst, {'VERIF_SELFTEST_SKIP_RULES': OLD_BASE_SKIP}, okp
+
+
 def place_demo(dst, demo, kind):
     if kind.startswith('in-crate-test'):
         f = kind.split(':', 1)[1].strip()
@@ -96,9 +116,8 @@ def run_checks(only=None, tier='quick', all_props=False):
             continue
         meta = json.load(open(os.path.join(sd, 'meta.json')))
         pid = meta['property']
-        d, dst = scratch()
+        d, dst, xenv, okp = tree_with(os.path.join(sd, 'patch.diff'))
         try:
-            okp, pout = apply_patch(dst, os.path.join(sd, 'patch.diff'))
             if not okp:
                 rows.append((name, 'PATCH-DOES-NOT-APPLY', ''))
                 continue
@@ -110,7 +129,7 @@ def run_checks(only=None, tier='quick', all_props=False):
             caught = []
             detail = ''
             for p in props:
-                rc, out = sh([os.path.join(VERIF, 'check'), p, tier], VERIF, {'VERIF_REPO': dst, 'VERIF_NO_EVIDENCE': '1'})
+                rc, out = sh([os.path.join(VERIF, 'check'), p, tier], VERIF, dict({'VERIF_REPO': dst, 'VERIF_NO_EVIDENCE': '1'}, **xenv))
                 if rc == 1:
                     caught.append(p)
                     if p == pid:
